@@ -274,6 +274,20 @@ def report_fails(rep, fails, replay, limit_per_sig=2, job_runner=None, job_repla
                 break
         if done:
             continue
+        if wjob is not None:
+            # last resort for failures that depend on the allocator (object addresses reused as cache keys ...): the whole worker
+            # job again in a freshly forked child of THIS process - the closest reconstruction of the original worker - and
+            # twice more in new interpreters
+            import importlib
+            from .pool import run_fresh
+            mod = importlib.import_module(f'mc.checks.{rep.pid.lower()}')
+            case = {'kind': 'wjob', 'wjob': jsonable(wjob), 'inner': plain, 'sig': dict(f.get('sig', {}), history_dependent=True)}
+            hit = run_fresh(lambda c: replay_wjob(mod, c), case) or replay_in_new_interpreter(rep.pid, case) or \
+                replay_in_new_interpreter(rep.pid, case)
+            if hit:
+                rep.violation(case, msg + extra + ' [reproduced by re-running its whole exploration job; the failure depends on the '
+                              'process history and is not reproduced by every re-execution (allocator-dependent)]')
+                continue
         raise SystemExit(f'INTERNAL: violation did not reproduce on re-execution: {msg}')
 
 
